@@ -11,18 +11,19 @@ namespace NV.C18
 
 open NV.Gen.C18
 
-/-! ## F4: the same header included twice -/
+/-! ## the repaired defect F4: the same header included twice used to reuse the file id -/
 
 /-- main file (id 1): line 1, `#include` t (id 2, two lines), `#include` t again; stop at line 2 of the second copy -/
 def reincP : List LexEv := [.nl, .incl 2, .nl, .eof, .incl 2, .nl]
 
-/-- in the second copy of the header the decoder adds the length of the first copy: line 2 is reported as line 4 -/
+/-- with the same id for both copies the decoder adds the length of the first copy: line 2 is reported as line 4 -/
 theorem reinclude_wrong :
     (lexRun { fileId := 1 } reincP).fileId = 2 ∧ (lexRun { fileId := 1 } reincP).curLine = 2 ∧
     translateAbs (lexRun { fileId := 1 } reincP).abs (lexFinish (lexRun { fileId := 1 } (reincP ++ [.eof, .nl]))).fi
       = some (2, 4) := by decide
 
-/-- **¬ file_roundtrip_Full**: without the freshness condition the statement is false (known finding C18-F4) -/
+/-- **¬ file_roundtrip_Full**: with a reused file id (what `add_program_file` did before the fix) the id-level
+    statement is false; `NV.C18.file_roundtrip` proves that the repaired allocation never reuses an id -/
 theorem file_roundtrip_Full_false : ¬ file_roundtrip_Full := by
   intro h
   have := h 1 reincP [.eof, .nl] (by decide) (by decide)
@@ -86,5 +87,13 @@ theorem init_replay :
   have hu : u16 0 = 0 := by decide
   have hu7 : u16 7 = 7 := by decide
   simp [encRun, encStep, placeInit, saveFileInfo, switchToLine, Enc.li, aProgram, aInitializer, hu, hu7, h3, h9]
+
+/-- the same layout through the repaired id allocation: the second copy gets id 3 and decodes to its own line 2 -/
+theorem reinclude_repaired :
+    let p : List LexEvN := [.nl, .incl 7, .nl, .eof, .incl 7, .nl]
+    let q : List LexEvN := [.eof, .nl]
+    (lexRunN (initN 5) p).curName = 7 ∧
+    translateAbs (lexRunN (initN 5) p).lex.abs (lexFinish (lexRunN (initN 5) (p ++ q)).lex).fi = some (3, 2) ∧
+    (lexRunN (initN 5) (p ++ q)).tbl = [5, 7, 7] := by decide
 
 end NV.C18
